@@ -41,6 +41,7 @@ func init() {
 			{ID: "C08.20", Desc: "the entry's request time is read from the clock in front of the origin call and its response time behind it, on every path into the entry", Run: func(c *Ctx) { ruleTimeRoles(c, "C08.20") }, MinSites: 2},
 			{ID: "C08.21", Desc: "the background revalidation reads its copy of the entry after the origin answered (a representation stored in between is not overwritten by the late 304)", Run: func(c *Ctx) { ruleBackgroundReadsAfterOrigin(c, "C08.21") }, MinSites: 1},
 			{ID: "C08.22", Desc: "on the 304 branch the merge of the 304's fields precedes the write-back on every path", Run: func(c *Ctx) { ruleMergeBeforeWriteBack(c, "C08.22") }, MinSites: 1},
+			{ID: "C08.23", Desc: "every name put into the hop-by-hop set is in canonical form (the 304 merge looks fields up by their canonical names)", Run: func(c *Ctx) { ruleHopSetKeysCanonical(c, "C08.23") }, MinSites: 1},
 		},
 	})
 }
